@@ -147,6 +147,7 @@ type interpreter struct {
 	fresh           func()                    // symFreshProcess: globals under test back to their initial values
 	stdin           []value                   // virtual standard input (symSetStdin)
 	stdinOff        int
+	ownShare        func(v value)    // ownership monitor: mark everything reachable from v as shared (symShare)
 	osOut           string           // text written to *os.File through fmt.Fprint* on this path
 	panicOrigin     *ssa.Function    // innermost function in which the pending run-time error arose
 	stubs           map[string]value // function redirections installed by a harness
